@@ -646,10 +646,18 @@ class Trellis:
             self.application_id, self.schema_version, schema_scripts
         )
         async with self.db:
+            if not is_fresh:
+                self._root = self.find(Root, "")
+                if self._root is None:
+                    # The schema is applied in autocommit mode, before this transaction.
+                    # A director killed in between leaves the schema without a single node.
+                    # That is the state of a fresh database, so it is completed here.
+                    if self.db.execute("SELECT EXISTS (SELECT 1 FROM node)").fetchone()[0]:
+                        raise ConsistencyError("The root node is missing.")
+                    is_fresh = True
             if is_fresh:
                 self._root = self.create(Root, None)
             else:
-                self._root = self.find(Root, "")
                 self._rebuild_temp_tables()
                 self._check_consistency()
 
